@@ -616,6 +616,9 @@ func (c *Canon) inlinable(fn *ssa.Function) bool {
 	if CanonOpaque[fn.String()] {
 		return false
 	}
+	if _, isRole := roleNames[fn]; isRole {
+		return false
+	}
 	b := fn.Blocks[0]
 	if len(b.Instrs) == 0 {
 		return false
